@@ -143,6 +143,8 @@ class BlockEval:
         self.loops_done = []        # (loop stmt, env at entry, env after one symbolic pass over the body, pc)
         self.calls = []             # expression statements that are calls (stmt, expanded call, pc, enclosing loops)
         self.loopstack = []         # (target, expanded iterable) of the loops being walked
+        self._dead = False
+        self._pc_out = []
         self.stores = []            # attribute stores: (target text, expanded value, stmt)
         self.objects = set()        # names mutated through method calls
         self.inits = {}             # their initial values
@@ -163,8 +165,18 @@ class BlockEval:
         return self.env
 
     def block(self, stmts, pc):
+        """walks the statements; returns the path condition in force afterwards, or None when the path ended
+        (return / break / continue)"""
+        pc = list(pc)
         for s in stmts:
+            self._pc_out = pc
+            self._dead = False
             self.stmt(s, pc)
+            if self._dead:
+                self._dead = False
+                return None
+            pc = self._pc_out
+        return pc
 
     def append_event(self, s, pc):
         """recognise container growth; returns True if the statement was one"""
@@ -216,20 +228,62 @@ class BlockEval:
             return
         if isinstance(s, (ast.Pass, ast.Assert, ast.Import, ast.ImportFrom)):
             return
+        if isinstance(s, (ast.Break, ast.Continue)):
+            self._dead = True
+            return
+        if isinstance(s, ast.Return):
+            self.env['__ret__'] = self.sub(s.value, pc) if s.value is not None else ast.Constant(value=None)
+            self._dead = True
+            return
+        if isinstance(s, ast.Try):
+            # value view of try/except: the handlers' result when something raises, else the body's
+            t = ast.Name(id='__raises__', ctx=ast.Load())
+            as_if = ast.If(test=t, body=[x for h in s.handlers for x in h.body] or [ast.Pass()], orelse=list(s.body) + list(s.orelse))
+            ast.copy_location(as_if, s)
+            self.stmt(as_if, pc)
+            dead = self._dead
+            pc_out = self._pc_out
+            if s.finalbody and not dead:
+                r = self.block(s.finalbody, pc_out)
+                dead = r is None
+                pc_out = r if r is not None else pc_out
+            self._dead, self._pc_out = dead, pc_out
+            return
         if isinstance(s, ast.If):
             t = self.sub(s.test, pc)
             before = dict(self.env)
-            self.block(s.body, pc + [(t, True)])
+            pa = self.block(s.body, pc + [(t, True)])
             a = self.env
             self.env = dict(before)
-            self.block(s.orelse, pc + [(t, False)])
+            pb = self.block(s.orelse, pc + [(t, False)])
             b = self.env
-            out = {}
-            for k in set(a) | set(b):
-                va = a.get(k, ast.Name(id=k, ctx=ast.Load()))
-                vb = b.get(k, ast.Name(id=k, ctx=ast.Load()))
-                out[k] = va if T(va) == T(vb) else ast.IfExp(test=clone(t), body=va, orelse=vb)
-            self.env = out
+
+            def joined(keys):
+                out = {}
+                for k in keys:
+                    va = a.get(k, ast.Name(id=k, ctx=ast.Load()))
+                    vb = b.get(k, ast.Name(id=k, ctx=ast.Load()))
+                    out[k] = va if T(va) == T(vb) else ast.IfExp(test=clone(t), body=va, orelse=vb)
+                return out
+            if pa is None and pb is None:
+                self.env = joined(set(a) | set(b))
+                self._dead = True
+                return
+            if pa is None:
+                # the true branch left (return / break / continue): what follows runs only when the test failed
+                self.env = dict(b)
+                if '__ret__' in a:
+                    self.env.update(joined({'__ret__'}))
+                self._dead, self._pc_out = False, pc + [(t, False)]
+                return
+            if pb is None:
+                self.env = dict(a)
+                if '__ret__' in b:
+                    self.env.update(joined({'__ret__'}))
+                self._dead, self._pc_out = False, pc + [(t, True)]
+                return
+            self.env = joined(set(a) | set(b))
+            self._dead, self._pc_out = False, pc
             return
         if isinstance(s, ast.For) and self.loop_ok is not None and self.loop_ok(s) and not s.orelse:
             entry = dict(self.inits)
@@ -245,6 +299,7 @@ class BlockEval:
             n_ev = len(self.events)
             self.loopstack.append((s.target, self.sub(s.iter, pc, env=entry)))
             self.block(s.body, pc)
+            self._dead, self._pc_out = False, pc
             self.loopstack.pop()
             self.loops.pop()
             body_env = dict(self.env)
